@@ -23,7 +23,8 @@ SACRIFICIAL = {"zi", "zf", "zs", "zl"}
 EVENTS = [
     ("accepted", "parse", "a = 2\nl += 3\nsec t { x = 1 }\n"),
     ("accepted-2", "parse", "s = \"two words\"\nsingle { x = 8 }\nfn(p, q)\n"),
-    ("accepted-deprecated", "parse", "dep = 3\ndepl = {y}\n"),
+    ("accepted-deprecated", "parse", "dep = 3\n"),
+    ("accepted-deprecated-list", "parse", "depl = {y}\ndep = 4\ndepl += w\n"),
     ("ends-in-dq", "abort", "zs = \"abc"),
     ("ends-in-dq-at-name", "abort", "\"abc def\nghi"),
     ("ends-in-sq", "abort", "zs = 'abc"),
@@ -51,7 +52,9 @@ PROBES = [
     "a = 5 /* open",
     "a = zz\n",
     "a = 7\n",
-    "dep = 2\n# c\ndepl += z\n",
+    "dep = 2\n",
+    "depl += z\n# c\n",
+    "dep = 5\n# c\ndepl = {}\n",
 ]
 FILES = {
     "c08_bad.conf": "zi = x\n", "c08_self.conf": "include(\"c08_self.conf\")\n", "c08_unterm.conf": "zs = \"never closed",
